@@ -122,7 +122,7 @@ def gen_msgspec(rng, allow=BASES):
                 m["n"] = rng.randint(1, 5)
                 m["seed"] = rng.randrange(1 << 30)
             elif f == "payload":
-                m["v"] = rng.choice(["garbage", "empty", "nonlist", "wrongshape", "deep"])
+                m["v"] = rng.choice(["garbage", "empty", "nonlist", "wrongshape", "deep", "hugecount"])
             elif f == "ann":
                 m["v"] = rng.choice(["short-chunk", "overrun", "nonascii", "many", "BLBI-garbage"])
             muts.append(m)
@@ -233,6 +233,9 @@ def build_msg(spec):
                 payload = ser.dumps(["only", "two"])
             elif v == "deep":
                 payload = ser.dumps([[[[[[[[[[1]]]]]]]]]])
+            elif v == "hugecount":
+                # a container / string header that declares far more elements than bytes follow (per serializer)
+                payload = {1: b"[" + b"1," * 3, 2: b"(\x04\xda\x03\x74tok", 3: b"[" * 40, 4: b"\xdd\x7f\xff\xff\xff\x01"}.get(sid, b"(\xff\xff\xff\x7f")
         elif f == "ann":
             v = m["v"]
             if v == "many":
@@ -310,6 +313,7 @@ class HostileWorld(World):
     QUICK_RUNS = 6000
     CHUNK = 100
     SHRINK_LISTS = ["peers", "peers.0.msgs", "peers.1.msgs", "peers.2.msgs"]
+    ALLOC_BOMB_VIOLATION = True
 
     def gen(self, rng, tier):
         big = tier == "thorough"
